@@ -1,8 +1,77 @@
 /-
   C07 — Diff reports exactly the differences, in a deterministic order.
+
+  `diff`, `emit`, `sortMods`, `flatten` are the definitions the driver executes
+  (YtkModel/Diff.lean, YtkModel/Dom.lean).  `Node.Valid` = constructible through the public
+  API: strictly sorted unique keys, none ending in an index group (DESIGN.md section 2, D26).
 -/
-import YtkModel.Diff
+import YtkProofs.Diff
+import YtkProofs.ValidB
 
 namespace Ytk.C07
+
+/-- Diff(L, L) = []. -/
+theorem diff_self (l : AMap Node) (hl : (Node.cont l).Valid) : diff l l = [] := by
+  simp only [diff, emit, emitNode_self _ "" hl]; rfl
+
+/-- Diff of equal documents is empty (the "if" half of the first sentence). -/
+theorem diff_eq_nil_of_eq (l r : AMap Node) (hl : (Node.cont l).Valid) (h : l = r) : diff l r = [] := by
+  subst h; exact diff_self l hl
+
+/-- Diff(L, R) = [] only if both have the same flattened leaves. -/
+theorem diff_nil_flatten (l r : AMap Node) (hl : (Node.cont l).Valid) (hr : (Node.cont r).Valid)
+    (h : diff l r = []) : flatten l = flatten r := by
+  have he : emit l r = [] := sortMods_eq_nil.mp h
+  have := emitNode_nil_flatten (.cont l) (.cont r) "" hl hr he
+  simpa [flattenNode, flatten] using this
+
+/-- The result is ordered by path (non-decreasing), for all inputs. -/
+theorem diff_sorted (l r : AMap Node) : (diff l r).Pairwise (fun a b => a.path ≤ b.path) :=
+  sortMods_sorted _
+
+/-- Sorting neither adds nor drops modifications … -/
+theorem diff_perm (l r : AMap Node) : (diff l r).Perm (emit l r) := sortMods_perm _
+
+/-- … and is stable: the modifications of any one path appear in emission order, i.e. the Delete
+    of a position stays in front of the Add emitted right after it for the same path. -/
+theorem diff_ties_emission_order (l r : AMap Node) (q : String) :
+    (diff l r).filter (fun m => m.path = q) = (emit l r).filter (fun m => m.path = q) :=
+  sortMods_filter q _
+
+/-- Determinism, sorting half: the stable sort is a function of the per-path sub-sequences of
+    what was emitted, whatever the order in which the paths were visited. -/
+theorem sort_order_independent (ms ms' : List Mod)
+    (h : ∀ q, ms.filter (fun m => m.path = q) = ms'.filter (fun m => m.path = q)) :
+    sortMods ms = sortMods ms' := sortMods_congr h
+
+/-! ## non-vacuity -/
+
+def i (n : Nat) : Scalar := ⟨"int", toString n⟩
+
+def exL : AMap Node :=
+  [("a", .list [.leaf (i 1)]), ("a-b", .leaf (i 2)), ("aB", .leaf (i 1)), ("k", .cont [("x", .leaf (i 1))]),
+   ("m", .cont [("u", .leaf (i 1)), ("v", .leaf (i 2))])]
+def exR : AMap Node :=
+  [("a", .list [.leaf (i 2)]), ("k", .leaf (i 5)), ("m", .cont [("u", .leaf (i 7)), ("w", .list [])])]
+
+theorem nonvacuous_valid : (Node.cont exL).Valid ∧ (Node.cont exR).Valid :=
+  ⟨Node.validB_sound _ (by decide +kernel), Node.validB_sound _ (by decide +kernel)⟩
+
+/-- one of each: Adds under left-only keys (`a-b`, `aB`, `m.v`), a Delete of a right-only key
+    (`m.w`), a Change with both values (`m.u`), a differing list (`a`: Delete, then the Add of
+    the LEFT list's leaf, with `a-b` and `aB` sorting in between), a kind mismatch (`k`: Delete
+    and the Add of the RIGHT leaf on the same path, Delete first) -/
+theorem nonvacuous_diff : diff exL exR =
+    [Mod.mkDel "a", Mod.mkAdd "a-b" (i 2), Mod.mkAdd "aB" (i 1), Mod.mkAdd "a[0]" (i 1),
+     Mod.mkDel "k", Mod.mkAdd "k" (i 5),
+     Mod.mkChange "m.u" (i 7) (i 1), Mod.mkAdd "m.v" (i 2), Mod.mkDel "m.w"] := by
+  decide +kernel
+
+theorem nonvacuous_self : diff exL exL = [] ∧ diff exR exR = [] := by decide +kernel
+
+/-- an empty diff between different documents: same leaves, different empty composites -/
+theorem nonvacuous_nil_flatten :
+    diff [("a", .cont []), ("b", .leaf (i 1))] [("b", .leaf (i 1))] = [] ∧
+    ([("a", Node.cont []), ("b", .leaf (i 1))] : AMap Node) ≠ [("b", .leaf (i 1))] := by decide +kernel
 
 end Ytk.C07
